@@ -167,6 +167,46 @@ def scenarios(sh, rng, mk, hid):
         en = rng.choice(db.enums)
         en.name = None
         expect(sh, 'enum-no-name|after-refused-db.sql|enum.sql', AME, lambda: en.sql, case, hid)
+    # ---- a many-to-many reference whose endpoint column lost its type: the join table's column has no type either
+    db, case = fresh()
+    t1, t2 = rng.sample(db.tables, 2)
+    ca, cb = Column('m2maq', 'int'), Column('m2mbq', 'int')
+    t1.add_column(ca)
+    t2.add_column(cb)
+    rm = db.add(Reference('<>', ca, cb, name='rm2mq'))
+    side_col = rng.choice([ca, cb])
+    side_col.type = None
+    expect(sh, 'column-no-type|m2m-endpoint|ref.sql', AME, lambda: rm.sql, case, hid)
+    expect(sh, 'column-no-type|m2m-endpoint|join_table.sql', AME, lambda: rm.join_table.sql, case, hid)
+    expect(sh, 'column-no-type|m2m-endpoint|db.sql', AME, lambda: db.sql, case, hid)
+    # ---- two EQUAL indexes in one table, one of them is deleted: that one is attached to nothing
+    db, case = fresh()
+    t = rng.choice(db.tables)
+    ia, ib = Index([t.columns[0]]), Index([t.columns[0]])
+    t.add_index(ia)
+    t.add_index(ib)
+    victim_ix = rng.choice([ia, ib])
+    before_ix = list(t.indexes)
+    t.delete_index(victim_ix)
+    gone = next(x for x in before_ix if not any(y is x for y in t.indexes))     # (the host may hold a third equal index)
+    expect(sh, 'index-detached|delete-one-of-two-equal|index.sql', AME, lambda: gone.sql, case, hid)
+    # ---- the table-less endpoint column has the same NAME as a column on the other side
+    for kind in ('>', '<', '-', '<>'):
+        for inline in (False, True):
+            db, case = fresh()
+            t1, t2 = rng.sample(db.tables, 2)
+            same = t2.columns[0].name
+            if any(c_.name == same for c_ in t1.columns):
+                continue
+            cs = Column(same, 'int')
+            t1.add_column(cs)
+            rs = db.add(Reference(kind, cs, t2.columns[0], inline=inline, name='rsameq'))
+            t1.delete_column(cs)
+            tag = f'{kind}|{"inline" if inline else "plain"}'
+            expect(sh, f'ref-tableless-column|same-name-both-sides|ref.sql|{tag}', TNF, lambda: rs.sql, case, hid)
+            expect(sh, f'ref-tableless-column|same-name-both-sides|ref.dbml|{tag}', TNF, lambda: rs.dbml, case, hid)
+            if not inline or kind == '<>':
+                expect(sh, f'ref-tableless-column|same-name-both-sides|db.sql|{tag}', TNF, lambda: db.sql, case, hid)
     # ---- index not attached ---------------------------------------------------------------
     db, case = fresh()
     t = rng.choice(db.tables)
